@@ -126,9 +126,18 @@ def run(spec, tier, seed):
     escalated = 0
     if broken and not found_input and ok and lean["driver_ok"]:
         # search harder for a concrete failing input on the implementation
-        for k in range(1, 4):
+        for k in range(0, 4):
             try:
-                r2 = analyse(spec, spec.harness(seed + 1000 * k, count * spec.escalate_factor, tier))
+                if k == 0:
+                    # first the neighbourhood of the inputs / scenarios on which the tie broke
+                    if not (res and res["diffs"] and hasattr(spec, "targeted")):
+                        continue
+                    tl = spec.targeted(seed, res, tier)
+                    if not tl:
+                        continue
+                    r2 = analyse(spec, tl)
+                else:
+                    r2 = analyse(spec, spec.harness(seed + 1000 * k, count * spec.escalate_factor, tier))
             except Exception as e:
                 broken.append("escalated search failed: %r" % e)
                 break
@@ -137,7 +146,8 @@ def run(spec, tier, seed):
                 c, idx = r2["specviols"][0]
                 l, a = c["pairs"][idx]
                 verdict.add(spec.signature(l, a), "implementation violates the property: " + spec.describe(l, a),
-                            dict(replay_base, seed=seed + 1000 * k, count=count * spec.escalate_factor, kind="specviol", **case_payload(c, idx)))
+                            dict(replay_base, seed=seed + 1000 * k, count=count * spec.escalate_factor, kind="specviol",
+                                 found_by="targeted escalation (scenarios of the broken tie under more schedules)" if k == 0 else "escalation", **case_payload(c, idx)))
                 found_input = True
                 break
     if broken and not found_input:
